@@ -3,7 +3,10 @@
 sid=$1; shift
 cd /repo || exit 2
 if ! git diff --quiet; then echo "/repo has uncommitted changes"; exit 2; fi
-git apply /verif/seeded/$sid/patch.diff || git apply -3 /verif/seeded/$sid/patch.diff || { echo "patch does not apply"; git checkout -- .; exit 2; }
+pf=/verif/seeded/$sid/patch.diff
+[ -f /verif/seeded/$sid/patch.rebased.diff ] && pf=/verif/seeded/$sid/patch.rebased.diff
+if ! git apply --check $pf 2>/dev/null; then echo "patch does not apply: $sid"; exit 2; fi
+git apply $pf
 for p in "$@"; do
   (cd /verif && ./check $p ${TIER:+--tier $TIER}) 2>&1 | grep -E "VIOLATION|KNOWN|check $p" 
 done
